@@ -11,7 +11,33 @@ from harness import par, schemagamma, tlc
 
 OPS = ["{ a }", "{ l(x: 1) }", "{ l(x: 1, y: [{f: 1, g: 2}]) }", "{ l(y: {g: 3}) }", "{ n { id } }", "{ n { ... on A { s id } } }",
        "{ u { ... on A { s } ... on B { id } } }", "{ u { __typename } }", "{ e }", "query @tag(n: 1) { a @tag }",
-       "{ n { ...F } } fragment F on A { id s }", "query ($v: In) { l(y: [$v]) }", "query ($v: Int) { l(x: $v) }"]
+       "{ n { ...F } } fragment F on A { id s }", "query ($v: In) { l(y: [$v]) }", "query ($v: Int) { l(x: $v) }", "{ l(y: [{f: 1}]) }"]
+
+
+def root_probe(out):
+    """The root operation types are part of the schema: taking the mutation root away (its type stays) invalidates every mutation."""
+    from py_gql import build_schema
+    from py_gql.lang import parse
+    from py_gql.schema.differ import SchemaChangeSeverity, diff_schema
+    from py_gql.validation import validate_ast
+    old = build_schema("schema { query: Query mutation: M } type Query { a: Int } type M { set(v: Int): Int }")
+    new = build_schema("schema { query: Query } type Query { a: Int m: M } type M { set(v: Int): Int }")
+    newer = build_schema("schema { query: Query mutation: M2 } type Query { a: Int m: M } type M { set(v: Int): Int } type M2 { other: Int }")
+    op = parse("mutation { set(v: 1) }")
+    n = 0
+    for label, o, nw in (("mutation-root-removed", old, new), ("mutation-root-replaced", old, newer)):
+        n += 1
+        try:
+            changes = list(diff_schema(o, nw))
+        except Exception as e:
+            out.setdefault("diff/raises/%s/%s" % (type(e).__name__, label), ["diff_schema raises", {"error": repr(e)}])
+            continue
+        breaking = any(c.severity == SchemaChangeSeverity.BREAKING for c in changes)
+        if not breaking and validate_ast(o, op) and not validate_ast(nw, op):
+            out.setdefault("diff/operation-breaks-without-breaking-change/%s" % label,
+                           ["an operation valid on the old schema is invalid on the new one, no breaking change reported",
+                            {"operation": "mutation { set(v: 1) }", "reported": [str(c.message) for c in changes]}])
+    return n
 
 
 def _worker(cases):
@@ -103,6 +129,10 @@ def run(chk):
         chk.traces += n
         for k, (what, wit) in out.items():
             chk.diverge(k, wit, what)
+    probe = {}
+    chk.traces += root_probe(probe)
+    for k, (what, wit) in probe.items():
+        chk.diverge(k, wit, what)
     chk.sample({"edits": cases[0]["edits"]})
     chk.assumptions += ["safe retypings (OutOk / InOk) may be silent, as the library documents",
                         "'naming the element' = the change message contains the element's name"]
